@@ -27,8 +27,8 @@ CLAIMED = {
          "sequential single steps only: no interleavings of concurrent committers, no restart, no chunk rotation; logs are in-memory appendables; watcher hubs and the hash tree are recorder stubs; the Alh chaining itself is decided under C01/C09", "DESIGN.md §4 C02"),
  "C18": ("the permission decision kernel: getDBFromCtx, HasPermissionForMethod, IsMaintenanceMethod and User.WhichPermission executed for every method name of the permission table crossed with every option combination, database selection, sysadmin flag and every 32-bit permission code: a database is handed out only when the reviewed classification allows it (the system database never for a writing method, incl. the document API); a user whose record is changed (permission, SQL privileges, activation, password) loses every cached token login whatever their number, and the session manager is told to close its sessions",
          "session/token validation is a stub returning a symbolic (database, user) or an error; which name each RPC handler passes to the kernel, session expiry and the pgsql front-end are outside the claim; user storage, bcrypt and token keys are stubs in the user-change harness; the classification table in the harness is the oracle", "DESIGN.md §4 C18"),
- "C07": ("export/replicate framing: ReplicateTx(ExportTx(tx)) hands precommit the same header and entry list for every symbolic transaction within the size bounds (headers v0/v1, all metadata combinations, values present or truncated)",
-         "tx reader / value reader and the write-only transaction are harness stubs; replica-side validation, ack allowance, delivery schedules and the replicator are outside the claim for now", "DESIGN.md §4 C07"),
+ "C07": ("export/replicate framing: ReplicateTx(ExportTx(tx)) hands precommit the same header and entry list for every symbolic transaction within the size bounds (headers v0/v1, all metadata combinations, values present or truncated); replica-side precommit admits a replicated tx only when id, PrevAlh, BlRoot and Eh match the replica's own state; the primary allows commits only up to a tx acknowledged by at least syncAcks replicas",
+         "tx reader / value reader, the write-only transaction and store.AllowCommitUpto are harness stubs/recorders; delivery schedules, retries, replica restart and the replicator goroutines are outside the claim", "DESIGN.md §4 C07"),
  "C17": ("the multi-file appendable refines one growable byte array over bounded sequences of append / set-offset / read / discard with symbolic payloads, lengths and offsets, for every chunk-boundary alignment and cache (max-open-files) size within the bounds",
          "chunks are in-memory appendables behind the real hooks interface; the single-file appendable over os.File, compression, reopen and Copy are outside the claim; reads beyond the logical end after a rewind are unspecified (neither appendable truncates on SetOffset)", "DESIGN.md §4 C17"),
  "C01": ("soundness of verification as binding obligations: Alh/entry-digest/linear-proof binding, and the client-history chain (honest prefix, one or two adversarial state advances accepted by VerifyDualProof, then a verified read of an earlier transaction) => the accepted past transaction is the honest one; all headers, digests and proof terms symbolic, ids <= 4 (quick) / 5-6 (thorough)",
